@@ -595,3 +595,109 @@ UNITS += [
          assumptions=["exact-integer abstraction of real_type (rounding of the sums not covered)", "the scattered neutron's lab energy lies between its rest mass and its incident total energy (kinematics of the Lorentz boost; numerics not decided)", "momentum, angles, directions not decided"],
          note="ChipsNeutronElasticInteractor::operator(): no secondaries, scattered; T_in = T_out + recoil deposit with both >= 0, for ANY result of the boost (the deposit is what is left of the total energy)"),
 ]
+
+
+# ---- Coulomb (Wentzel) scattering, Rayleigh, combined bremsstrahlung ---------------------------
+CSI = D + "CoulombScatteringInteractor.hh"
+RAY = D + "RayleighInteractor.hh"
+CBI = D + "CombinedBremInteractor.hh"
+
+CS_MODEL = """
+typedef struct { Real3 inc_direction_; real_type inc_energy_; } SimpleInteractor;
+real_type g_recoil;     /* ghost: the recoil energy calc_recoil_energy returns */
+real_type CS_sample_angle(SimpleInteractor const* self, Engine* rng) __CPROVER_assigns(g_draws) __CPROVER_ensures(g_draws > __CPROVER_old(g_draws));
+/* calc_recoil_energy(cos_theta): 0 <= recoil <= incident kinetic energy (the function's own CELER_ASSERT at the call site; two-body kinematics, numerics not decided) */
+real_type CS_calc_recoil_energy(SimpleInteractor const* self, real_type cos_theta) __CPROVER_assigns(g_recoil) __CPROVER_ensures(__CPROVER_return_value >= 0 && __CPROVER_return_value <= self->inc_energy_ && g_recoil == __CPROVER_return_value);
+"""
+CS_RULES = Q_RULES + [
+    VALUE_AS, RESULT_INIT,
+    Rule(r"sample_angle_\(rng\)", "CS_sample_angle(self, rng)", "*", note="angle sampler -> stub"),
+    Rule(r"ExitingDirectionSampler\{cos_theta, inc_direction_\}\(rng\)", "EDS_sample(cos_theta, inc_direction_, rng)", "*", note="direction sampler -> stub"),
+    Rule(r"particle_\.energy\(\)", "self->inc_energy_", "*", note="ParticleTrackView accessor -> field"),
+    Rule(r"this->calc_recoil_energy\(", "CS_calc_recoil_energy(self, ", "*", note="member call -> stub with its asserted range"),
+    members("inc_direction_"),
+]
+
+
+def build_coulomb(ctx):
+    pc = ctx.func(CSI, r"CELER_FUNCTION Interaction CoulombScatteringInteractor::operator\(\)\(Engine& rng\)", CS_RULES, name="CoulombScatteringInteractor::operator()")
+    return (HDR + INTERACTION_MODEL + COMMON + CS_MODEL + """
+Interaction CS_call(SimpleInteractor const* self, Engine* rng)
+__CPROVER_requires(__CPROVER_r_ok(self, sizeof(*self)) && self->inc_energy_ > 0 && !__CPROVER_isinfd(self->inc_energy_))
+__CPROVER_assigns(g_draws, g_recoil)
+/* no secondaries; incident = outgoing + nuclear recoil deposited locally, term by term, both >= 0 */
+__CPROVER_ensures(__CPROVER_return_value.action == IA_scattered && __CPROVER_return_value.secondaries.size == 0)
+__CPROVER_ensures(__CPROVER_return_value.energy == self->inc_energy_ - g_recoil && __CPROVER_return_value.energy >= 0 && __CPROVER_return_value.energy_deposition == g_recoil && g_recoil >= 0)
+{""" + pc.body + """}
+void h_cs(void)
+{
+    SimpleInteractor m; Engine* e;
+    CS_call(&m, e);
+    VERIF_CANARY();
+}
+""")
+
+
+RAY_RULES = Q_RULES + [
+    RESULT_INIT,
+    Rule(r"SampleInput input = this->evaluate_weight_and_prob\(\);.*?\} while \(2 \* generate_canonical\(rng\) > 1 \+ ipow<2>\(cost\) \|\| cost < -1\);", "real_type cost = RAY_sample_cost(self, rng);", 1, flags=16,
+         note="form-factor weights and the angular rejection loop -> stub (any cosine); number of draws NOT decided"),
+    Rule(r"ExitingDirectionSampler\{cost, inc_direction_\}\(rng\)", "EDS_sample(cost, inc_direction_, rng)", "*", note="direction sampler -> stub"),
+    Rule(r"Interaction::Action::scattered", "IA_scattered", "*", note="enum"),
+    members("inc_energy_", "inc_direction_"),
+]
+
+
+def build_rayleigh(ctx):
+    pc = ctx.func(RAY, r"CELER_FUNCTION Interaction RayleighInteractor::operator\(\)\(Engine& rng\)", RAY_RULES, name="RayleighInteractor::operator()")
+    return (HDR + INTERACTION_MODEL + COMMON + CS_MODEL + """
+real_type RAY_sample_cost(SimpleInteractor const* self, Engine* rng) __CPROVER_assigns(g_draws) __CPROVER_ensures(g_draws > __CPROVER_old(g_draws));
+Interaction RAY_call(SimpleInteractor const* self, Engine* rng)
+__CPROVER_requires(__CPROVER_r_ok(self, sizeof(*self)) && self->inc_energy_ > 0 && !__CPROVER_isinfd(self->inc_energy_))
+__CPROVER_assigns(g_draws)
+/* coherent scattering: the photon keeps all its energy; nothing emitted, nothing deposited */
+__CPROVER_ensures(__CPROVER_return_value.action == IA_scattered && __CPROVER_return_value.secondaries.size == 0 && __CPROVER_return_value.energy == self->inc_energy_ && __CPROVER_return_value.energy_deposition == 0)
+{""" + pc.body + """}
+void h_ray(void)
+{
+    SimpleInteractor m; Engine* e;
+    RAY_call(&m, e);
+    VERIF_CANARY();
+}
+""")
+
+
+CB_RULES = Q_RULES + [
+    ALLOC1, NULLPTR, FACTORY,
+    Rule(r"Energy gamma_energy;", "real_type gamma_energy = 0;", 1, note="Quantity default"),
+    Rule(r"particle_\.energy\(\) >= seltzer_berger_upper_limit\(\)", "CB_above_sb_limit(self)", 1, note="model switch (either answer)"),
+    Rule(r"(?:RBEnergySampler|SBEnergySampler) sample_energy\{.*?\};", "", 2, flags=16, note="energy sampler construction dropped (Seltzer-Berger below / relativistic above the switch)"),
+    Rule(r"sample_energy\(rng\)", "BR_sample_photon_energy(self, rng)", 2, note="photon energy sampler -> stub (assumed range)"),
+    Rule(r"sample_costheta_\(rng\)", "BR_sample_costheta(self, rng)", 1, note="polar angle sampler -> stub"),
+    TempCall("BremFinalStateHelper", "BFS_ctor", "BFS_call"),
+    Rule(r"particle_\.energy\(\)", "self->inc_energy_", "*", note="ParticleTrackView accessor -> field"),
+    Rule(r"particle_\.momentum\(\)", "self->inc_momentum_", "*", note="ParticleTrackView accessor -> field"),
+    Rule(r"shared_\.rb_data\.ids\.gamma", "self->gamma_id", 1, note="params"),
+    members("inc_direction_"),
+]
+
+
+def build_combined_brem(ctx):
+    src = brem_builder("CombinedBremInteractor.hh", "CombinedBremInteractor", CB_RULES)(ctx)
+    return src.replace("Interaction BR_call(BremInteractor const* self, Engine* rng)", "bool CB_above_sb_limit(BremInteractor const* self) __CPROVER_assigns() __CPROVER_ensures(__CPROVER_return_value == 0 || __CPROVER_return_value == 1);\nInteraction BR_call(BremInteractor const* self, Engine* rng)", 1)
+
+
+UNITS += [
+    Unit("c04_coulomb_scattering", build_coulomb, "h_cs", enforce="CS_call", replace=["CS_sample_angle", "CS_calc_recoil_energy", "EDS_sample"], timeout=300, backend=["sat", "cvc5"],
+         must_have=[r"CS_call.postcondition", r"celer_assert"], checks=["--bounds-check", "--pointer-check"],
+         assumptions=["calc_recoil_energy in [0, E] (its call-site CELER_ASSERT; two-body kinematics not decided)"],
+         note="CoulombScatteringInteractor::operator(): no secondaries; incident = outgoing + recoil deposit term by term, both >= 0"),
+    Unit("c04_rayleigh", build_rayleigh, "h_ray", enforce="RAY_call", replace=["RAY_sample_cost", "EDS_sample"], timeout=300, backend=["sat", "cvc5"],
+         must_have=[r"RAY_call.postcondition", r"celer_ensure"], checks=["--bounds-check", "--pointer-check"],
+         assumptions=["angular rejection loop replaced by its result (draw count not decided)"],
+         note="RayleighInteractor::operator(): energy unchanged, nothing emitted or deposited"),
+    Unit("c04_combined_brem", build_combined_brem, "h_br", enforce="BR_call", replace=["BFS_call", "BR_sample_photon_energy", "BR_sample_costheta", "CB_above_sb_limit"], timeout=300, backend=["sat", "cvc5", "z3"],
+         must_have=[r"BR_call.postcondition", r"ALLOC_call.precondition", r"BFS_call.precondition"], checks=["--bounds-check", "--pointer-check"],
+         assumptions=["photon energy samplers return 0 < k <= incident energy (assumed)", "BremFinalStateHelper::operator() by its contract; constructor body inlined", "StackAllocator contract (c16_alloc)"],
+         note="CombinedBremInteractor::operator(): clean failure; incident = outgoing + photon on both sides of the Seltzer-Berger / relativistic switch"),
+]
